@@ -39,14 +39,17 @@ Definition tH5 (t : Tree) : h5file :=
 
 Definition eMsgs (l : list msg) : Tree := L (map eLZ l).
 
-(* input [0, json document] -> [report lines or exception, valid, what from_json makes of it]
-   input [1, [attrs, root members]] -> [(valid, report lines) or exception] *)
+(* input [0, json document, version] -> [report lines or exception, valid, what from_json makes of it]
+   input [1, [attrs, root members], version] -> [(valid, report lines) or exception]
+   version: [] for None, [[code points]] for a --format-version text *)
 Definition run (t : Tree) : Tree :=
+  let fv := tOpt tLZ (tnth t 2) in
   match tZ (tnth t 0) with
   | 0 =>
       let j := tJson (tnth t 1) in
-      L [eResult eMsgs (validate_json_report j); eB (validate_json j); eResult eJT (from_json j)]
+      let r := run_json fv j in
+      L [eResult eMsgs r; eB (match r with ROk [] => true | _ => false end); eResult eJT (from_json j)]
   | _ =>
       let f := tH5 (tnth t 1) in
-      L [eResult (fun p => L [eB (fst p); eMsgs (snd p)]) (validate_hdf5_report f); eB (validate_hdf5 f)]
+      L [eResult (fun p => L [eB (fst p); eMsgs (snd p)]) (run_hdf5 fv f)]
   end.
